@@ -302,8 +302,8 @@ impl<'a> Walk<'a> {
         // For progress reporting
         (self.on_visit)(&entry.path);
 
-        // Skip hidden files
-        if !self.hidden {
+        // Skip hidden files, but not the paths given explicitly by the user
+        if !self.hidden && level > 0 {
             if let Some(name) = entry.path.file_name_cstr() {
                 if name.to_string_lossy().starts_with('.') {
                     return;
